@@ -233,7 +233,24 @@ func c17(w *core.World, r *core.Report) {
 	}
 
 	// ---- INDEX-PUBLISHED-COMPLETE
-	r.Rule("INDEX-PUBLISHED-COMPLETE", 2, "the readers of the lazily loaded key indexes only test them for nil, so an index is published (assigned to intendedStoreIndex / runningStoreIndex, directly or through a pointer handed to a helper) only when it is complete: no element is added to the assigned map after the assignment. An index that is visible while it is still being filled answers 'does not exist' to a concurrent validator and 'exists' to the sequential run.")
+	// the struct types an index can live in: the cache client and the named structs among its field types
+	indexOwners := map[string]bool{"tree.TreeCacheClientImpl": true}
+	if nt := w.NamedType("pkg/tree", "TreeCacheClientImpl"); nt != nil {
+		if st, ok := nt.Underlying().(*types.Struct); ok {
+			for i := 0; i < st.NumFields(); i++ {
+				ft := st.Field(i).Type()
+				if pt, isPtr := ft.(*types.Pointer); isPtr {
+					ft = pt.Elem()
+				}
+				if n, isNamed := ft.(*types.Named); isNamed {
+					if _, isStruct := n.Underlying().(*types.Struct); isStruct && n.Obj().Pkg() != nil && strings.HasPrefix(n.Obj().Pkg().Path(), core.Module) {
+						indexOwners[core.TypeKey(n)] = true
+					}
+				}
+			}
+		}
+	}
+	r.Rule("INDEX-PUBLISHED-COMPLETE", 0, "the readers of the lazily loaded key indexes only test them for nil, so an index is published (assigned to intendedStoreIndex / runningStoreIndex, directly or through a pointer handed to a helper) only when it is complete: no element is added to the assigned map after the assignment. An index that is visible while it is still being filled answers 'does not exist' to a concurrent validator and 'exists' to the sequential run.")
 	for _, f := range w.RepoFns {
 		if f.Pkg == nil || core.PkgPath(f) != core.Module+"/pkg/tree" {
 			continue
@@ -246,7 +263,12 @@ func c17(w *core.World, r *core.Report) {
 				}
 				switch a := st.Addr.(type) {
 				case *ssa.FieldAddr:
-					if fk := core.FieldKey(a); fk != "tree.TreeCacheClientImpl.intendedStoreIndex" && fk != "tree.TreeCacheClientImpl.runningStoreIndex" && !strings.HasSuffix(core.FieldOf(a), "StoreIndex") {
+					// a field of the cache client, or of a sub-struct the cache client holds its indexes in
+					owner := a.X.Type()
+					if pt, isPtr := owner.Underlying().(*types.Pointer); isPtr {
+						owner = pt.Elem()
+					}
+					if !indexOwners[core.TypeKey(owner)] {
 						continue
 					}
 				case *ssa.Alloc:
